@@ -249,6 +249,8 @@ impl Op {
                 if m.reject { " rej" } else { "" },
                 if m.has_snapshot() && m.get_snapshot().get_metadata().index > 0 {
                     format!(" snap{}", m.get_snapshot().get_metadata().index)
+                } else if !m.get_context().is_empty() {
+                    format!(" ctx={}", String::from_utf8_lossy(m.get_context()))
                 } else {
                     String::new()
                 }
